@@ -265,6 +265,24 @@ class Body:
     def local_ty(self, l):
         return self.locals[l]["ty"]
 
+    def place_ty(self, p):
+        """type of a place (None when an index / slice projection makes it unknown)"""
+        cur = self.locals[p["l"]]["ty"]
+        for e in p["p"]:
+            if e == "*":
+                cur = re.sub(r"^&\s*('\w+\s+)?(mut\s+)?", "", cur) if cur.startswith("&") else cur
+                if cur.startswith("std::boxed::Box<"):
+                    cur = cur[len("std::boxed::Box<"):-1]
+            elif isinstance(e, dict) and "f" in e:
+                cur = e.get("ty")
+                if cur is None:
+                    return None
+            elif isinstance(e, dict) and "downcast" in e:
+                continue
+            else:
+                return None
+        return cur
+
     def locals_named(self, name):
         return [i for i, l in enumerate(self.locals) if l.get("name") == name]
 
